@@ -359,6 +359,28 @@ def run(modules, seed=0, n=12, repo=None):
                         sg.final_states, sg.players = d["final_states"], d["players"]
                         return sg.check_game() or ()
                     add("CR.Ex.Tad", "StochasticGame_check_game", cfg, vals, run_check)
+            # Solver.prune_states on small conditioned games: owners + rows in, rows out
+            cfg = py2lean.TAD_UNITS.get("Solver_prune_states")
+            if cfg is not None and "Solver_prune_states" in sigs:
+                for _ in range(2 * n):
+                    k = rng.randint(1, 6)
+                    owners = [rng.choice(["Player 1", "Player 2", "Probabilistic"]) for _ in range(k)]
+                    rows = []
+                    for o in owners:
+                        m = rng.choice([0, 1, 1, 2])
+                        rows.append([((rng.choice(["a", "b"]) if o != "Probabilistic" else dy(rng, 1, 8)), rng.randrange(k)) for _ in range(m)])
+                    vals = ["50", lit(owners, cfg["params"]["owners"]),
+                            "(" + "[" + ", ".join("[" + ", ".join(f"({'CR.Py.Slot.act ' + json.dumps(l) if isinstance(l, str) else 'CR.Py.Slot.prob ' + lit(l, FLOAT)}, {lit(t, INT)})" for l, t in r) + "]" for r in rows) + "] : List (List (CR.Py.Slot × Int)))"]
+
+                    def run_ps(owners=owners, rows=rows):
+                        sl = []
+                        for o, r in zip(owners, rows):
+                            sl.append(types.SimpleNamespace(player=o, next_states=list(r)))
+                        sv = object.__new__(tad.Solver)
+                        sv.state_list = sl
+                        sv.prune_states()
+                        return [x.next_states for x in sl]
+                    add("CR.Ex.Tad", "Solver_prune_states", cfg, vals, run_ps)
     out_lines = lines
     if not out_lines:
         return {"cases": 0, "skipped": skipped, "mismatches": [], "units": per_unit}
